@@ -546,4 +546,150 @@ theorem cascadePt_endpoint (p1 p2 q1 q2 : Pt) :
   · exact Or.inl rfl
   · exact Or.inr (Or.inl rfl)
 
+/-! ### exactness of the collinear answers -/
+
+/-- Segments are convex. -/
+theorem SegMem_convex {a b x y z : Pt} (hx : SegMem x a b) (hy : SegMem y a b) (hz : SegMem z x y) :
+    SegMem z a b := by
+  obtain ⟨s1, a0, a1, hxx, hxy⟩ := hx
+  obtain ⟨s2, b0, b1, hyx, hyy⟩ := hy
+  obtain ⟨r, r0, r1, hzx, hzy⟩ := hz
+  have r1' : 0 ≤ 1 - r := by linarith
+  refine ⟨(1 - r) * s1 + r * s2, ?_, ?_, ?_, ?_⟩
+  · have := mul_nonneg r1' a0; have := mul_nonneg r0 b0; linarith
+  · have := mul_nonneg r1' (sub_nonneg.mpr a1); have := mul_nonneg r0 (sub_nonneg.mpr b1); nlinarith
+  · rw [hzx, hxx, hyx]; ring
+  · rw [hzy, hxy, hyy]; ring
+
+/-- Stronger read-out of the table: the mixed rows also know which bits are *not* set. -/
+theorem colTable_collinear' {a b c d : Bool} {p1 p2 q1 q2 x y : Pt}
+    (h : colTable a b c d p1 p2 q1 q2 = some (.collinear x y)) :
+    (x = q1 ∧ y = q2 ∧ a = true ∧ b = true) ∨ (x = p1 ∧ y = p2 ∧ c = true ∧ d = true) ∨
+    (x = q1 ∧ y = p1 ∧ a = true ∧ b = false ∧ c = true ∧ d = false) ∨
+    (x = q1 ∧ y = p2 ∧ a = true ∧ b = false ∧ c = false ∧ d = true) ∨
+    (x = q2 ∧ y = p1 ∧ a = false ∧ b = true ∧ c = true ∧ d = false) ∨
+    (x = q2 ∧ y = p2 ∧ a = false ∧ b = true ∧ c = false ∧ d = true) := by
+  cases a <;> cases b <;> cases c <;> cases d <;> simp [colTable] at h ⊢ <;>
+    (try split at h) <;> simp_all
+
+theorem colTable_single' {a b c d : Bool} {p1 p2 q1 q2 x : Pt} {f : Bool}
+    (h : colTable a b c d p1 p2 q1 q2 = some (.single x f)) :
+    (x = q1 ∧ x = p1 ∧ a = true ∧ b = false ∧ c = true ∧ d = false) ∨
+    (x = q1 ∧ x = p2 ∧ a = true ∧ b = false ∧ c = false ∧ d = true) ∨
+    (x = q2 ∧ x = p1 ∧ a = false ∧ b = true ∧ c = true ∧ d = false) ∨
+    (x = q2 ∧ x = p2 ∧ a = false ∧ b = true ∧ c = false ∧ d = true) := by
+  cases a <;> cases b <;> cases c <;> cases d <;> simp [colTable] at h ⊢ <;>
+    (try split at h) <;> simp_all
+
+/-- closes one leaf of a one-dimensional case analysis -/
+local macro "oneD" : tactic =>
+  `(tactic| first | (exfalso; linarith) | (left; constructor <;> linarith) | (right; constructor <;> linarith))
+
+/-- One-dimensional core: on a line, with `q1 ∈ [p1,p2]`, `q2 ∉ [p1,p2]`, `p1 ∈ [q1,q2]`,
+`p2 ∉ [q1,q2]`, the common part of the two segments is `[q1, p1]`. -/
+theorem col_sub_q1p1 {p1 p2 q1 q2 z : Pt}
+    (hq1 : cross p1 p2 q1 = 0) (hq2 : cross p1 p2 q2 = 0)
+    (hp1 : cross q1 q2 p1 = 0) (hp2 : cross q1 q2 p2 = 0)
+    (ha : pointInRect q1 p1 p2 = true) (hb : pointInRect q2 p1 p2 = false)
+    (hc : pointInRect p1 q1 q2 = true) (hd : pointInRect p2 q1 q2 = false)
+    (hz1 : SegMem z p1 p2) (hz2 : SegMem z q1 q2) : SegMem z q1 p1 := by
+  by_cases hp : p1 = p2
+  · subst hp; rw [hc] at hd; cases hd
+  · obtain ⟨γ, hcx, hcy⟩ := exists_param hp hq1
+    obtain ⟨δ, hdx, hdy⟩ := exists_param hp hq2
+    obtain ⟨ζ, z0, z1, hzx, hzy⟩ := hz1
+    have e0x : p1.x = p1.x + 0 * (p2.x - p1.x) := by ring
+    have e0y : p1.y = p1.y + 0 * (p2.y - p1.y) := by ring
+    have e1x : p2.x = p1.x + 1 * (p2.x - p1.x) := by ring
+    have e1y : p2.y = p1.y + 1 * (p2.y - p1.y) := by ring
+    have hA := ((inRect_iff_SegMem hq1).trans (SegMem_param hp e0x e0y e1x e1y hcx hcy)).mp ha
+    have hB : ¬ _ := fun h => by
+      have := ((inRect_iff_SegMem hq2).trans (SegMem_param hp e0x e0y e1x e1y hdx hdy)).mpr h
+      rw [hb] at this; cases this
+    have hC := ((inRect_iff_SegMem hp1).trans (SegMem_param hp hcx hcy hdx hdy e0x e0y)).mp hc
+    have hD : ¬ _ := fun h => by
+      have := ((inRect_iff_SegMem hp2).trans (SegMem_param hp hcx hcy hdx hdy e1x e1y)).mpr h
+      rw [hd] at this; cases this
+    have hX := (SegMem_param hp hcx hcy hdx hdy hzx hzy).mp hz2
+    rw [SegMem_param hp hcx hcy e0x e0y hzx hzy]
+    simp only [not_or, not_and_or, not_le] at hB hD
+    obtain ⟨hB1, hB2⟩ := hB
+    obtain ⟨hD1, hD2⟩ := hD
+    rcases hA with ⟨a1, a2⟩ | ⟨a1, a2⟩ <;> rcases hC with ⟨c1, c2⟩ | ⟨c1, c2⟩ <;>
+      rcases hX with ⟨x1, x2⟩ | ⟨x1, x2⟩ <;> rcases hB1 with b1 | b1 <;> rcases hB2 with b2 | b2 <;>
+      rcases hD1 with d1 | d1 <;> rcases hD2 with d2 | d2 <;> oneD
+
+theorem cross_rev_zero {c d x : Pt} (h : cross c d x = 0) : cross d c x = 0 := by
+  rw [cross_rev, h, neg_zero]
+
+theorem col_sub_q1p2 {p1 p2 q1 q2 z : Pt}
+    (hq1 : cross p1 p2 q1 = 0) (hq2 : cross p1 p2 q2 = 0)
+    (hp1 : cross q1 q2 p1 = 0) (hp2 : cross q1 q2 p2 = 0)
+    (ha : pointInRect q1 p1 p2 = true) (hb : pointInRect q2 p1 p2 = false)
+    (hc : pointInRect p1 q1 q2 = false) (hd : pointInRect p2 q1 q2 = true)
+    (hz1 : SegMem z p1 p2) (hz2 : SegMem z q1 q2) : SegMem z q1 p2 :=
+  col_sub_q1p1 (cross_rev_zero hq1) (cross_rev_zero hq2) hp2 hp1
+    (by rw [pointInRect_symm]; exact ha) (by rw [pointInRect_symm]; exact hb) hd hc
+    (SegMem_symm hz1) hz2
+
+theorem col_sub_q2p1 {p1 p2 q1 q2 z : Pt}
+    (hq1 : cross p1 p2 q1 = 0) (hq2 : cross p1 p2 q2 = 0)
+    (hp1 : cross q1 q2 p1 = 0) (hp2 : cross q1 q2 p2 = 0)
+    (ha : pointInRect q1 p1 p2 = false) (hb : pointInRect q2 p1 p2 = true)
+    (hc : pointInRect p1 q1 q2 = true) (hd : pointInRect p2 q1 q2 = false)
+    (hz1 : SegMem z p1 p2) (hz2 : SegMem z q1 q2) : SegMem z q2 p1 :=
+  col_sub_q1p1 hq2 hq1 (cross_rev_zero hp1) (cross_rev_zero hp2) hb ha
+    (by rw [pointInRect_symm]; exact hc) (by rw [pointInRect_symm]; exact hd) hz1 (SegMem_symm hz2)
+
+theorem col_sub_q2p2 {p1 p2 q1 q2 z : Pt}
+    (hq1 : cross p1 p2 q1 = 0) (hq2 : cross p1 p2 q2 = 0)
+    (hp1 : cross q1 q2 p1 = 0) (hp2 : cross q1 q2 p2 = 0)
+    (ha : pointInRect q1 p1 p2 = false) (hb : pointInRect q2 p1 p2 = true)
+    (hc : pointInRect p1 q1 q2 = false) (hd : pointInRect p2 q1 q2 = true)
+    (hz1 : SegMem z p1 p2) (hz2 : SegMem z q1 q2) : SegMem z q2 p2 :=
+  col_sub_q1p2 hq2 hq1 (cross_rev_zero hp1) (cross_rev_zero hp2) hb ha
+    (by rw [pointInRect_symm]; exact hc) (by rw [pointInRect_symm]; exact hd) hz1 (SegMem_symm hz2)
+
+/-- In the all-collinear branch a `Collinear` answer is exactly the common part of the segments. -/
+theorem col_overlap_exact {p1 p2 q1 q2 x y : Pt}
+    (hq1 : cross p1 p2 q1 = 0) (hq2 : cross p1 p2 q2 = 0)
+    (hp1 : cross q1 q2 p1 = 0) (hp2 : cross q1 q2 p2 = 0)
+    (h : collinearIntersection p1 p2 q1 q2 = some (.collinear x y)) (z : Pt) :
+    (SegMem z p1 p2 ∧ SegMem z q1 q2) ↔ SegMem z x y := by
+  rw [collinearIntersection_def] at h
+  have ha := fun h => (inRect_iff_SegMem hq1).mp h
+  have hb := fun h => (inRect_iff_SegMem hq2).mp h
+  have hc := fun h => (inRect_iff_SegMem hp1).mp h
+  have hd := fun h => (inRect_iff_SegMem hp2).mp h
+  rcases colTable_collinear' h with ⟨ex, ey, b1, b2⟩ | ⟨ex, ey, b1, b2⟩ | ⟨ex, ey, b1, b2, b3, b4⟩ |
+    ⟨ex, ey, b1, b2, b3, b4⟩ | ⟨ex, ey, b1, b2, b3, b4⟩ | ⟨ex, ey, b1, b2, b3, b4⟩ <;> rw [ex, ey]
+  · exact ⟨fun h => h.2, fun h => ⟨SegMem_convex (ha b1) (hb b2) h, h⟩⟩
+  · exact ⟨fun h => h.1, fun h => ⟨h, SegMem_convex (hc b1) (hd b2) h⟩⟩
+  · exact ⟨fun h => col_sub_q1p1 hq1 hq2 hp1 hp2 b1 b2 b3 b4 h.1 h.2,
+      fun h => ⟨SegMem_convex (ha b1) (SegMem_left _ _) h, SegMem_convex (SegMem_left _ _) (hc b3) h⟩⟩
+  · exact ⟨fun h => col_sub_q1p2 hq1 hq2 hp1 hp2 b1 b2 b3 b4 h.1 h.2,
+      fun h => ⟨SegMem_convex (ha b1) (SegMem_right _ _) h, SegMem_convex (SegMem_left _ _) (hd b4) h⟩⟩
+  · exact ⟨fun h => col_sub_q2p1 hq1 hq2 hp1 hp2 b1 b2 b3 b4 h.1 h.2,
+      fun h => ⟨SegMem_convex (hb b2) (SegMem_left _ _) h, SegMem_convex (SegMem_right _ _) (hc b3) h⟩⟩
+  · exact ⟨fun h => col_sub_q2p2 hq1 hq2 hp1 hp2 b1 b2 b3 b4 h.1 h.2,
+      fun h => ⟨SegMem_convex (hb b2) (SegMem_right _ _) h, SegMem_convex (SegMem_right _ _) (hd b4) h⟩⟩
+
+/-- In the all-collinear branch a `SinglePoint` answer is the only common point. -/
+theorem col_single_exact {p1 p2 q1 q2 x : Pt} {f : Bool}
+    (hq1 : cross p1 p2 q1 = 0) (hq2 : cross p1 p2 q2 = 0)
+    (hp1 : cross q1 q2 p1 = 0) (hp2 : cross q1 q2 p2 = 0)
+    (h : collinearIntersection p1 p2 q1 q2 = some (.single x f)) (z : Pt)
+    (hz1 : SegMem z p1 p2) (hz2 : SegMem z q1 q2) : z = x := by
+  rw [collinearIntersection_def] at h
+  rcases colTable_single' h with ⟨e1, e2, b1, b2, b3, b4⟩ | ⟨e1, e2, b1, b2, b3, b4⟩ |
+    ⟨e1, e2, b1, b2, b3, b4⟩ | ⟨e1, e2, b1, b2, b3, b4⟩
+  · have := col_sub_q1p1 hq1 hq2 hp1 hp2 b1 b2 b3 b4 hz1 hz2
+    rw [← e1, ← e2, SegMem_degenerate] at this; exact this
+  · have := col_sub_q1p2 hq1 hq2 hp1 hp2 b1 b2 b3 b4 hz1 hz2
+    rw [← e1, ← e2, SegMem_degenerate] at this; exact this
+  · have := col_sub_q2p1 hq1 hq2 hp1 hp2 b1 b2 b3 b4 hz1 hz2
+    rw [← e1, ← e2, SegMem_degenerate] at this; exact this
+  · have := col_sub_q2p2 hq1 hq2 hp1 hp2 b1 b2 b3 b4 hz1 hz2
+    rw [← e1, ← e2, SegMem_degenerate] at this; exact this
+
 end Geo.Proofs.Kernel
